@@ -6,22 +6,24 @@ CHECK = dict(
         # a stub stays on one vCPU (API requirement), peers run on the same vCPU: nothing for TSan to see -> asan (main) + plain (volume)
         runs=[dict(harness='h_rpc', flavor='asan', execs=dict(quick=16, thorough=64), timeout=_T, shapes=[None], cfg={}),
               dict(harness='h_rpc', flavor='plain', execs=dict(quick=8, thorough=32), timeout=_T, shapes=[None], cfg={})],
-        par=12,
+        par=14,
         level='exploration',
-        rule='one evaluation = one seeded execution (fresh process): 14 (quick) / 40 (thorough) rounds, each a fresh real Stub on an in-memory '
+        rule='one evaluation = one seeded execution (fresh process): 10 (quick) / 30 (thorough) rounds, each a fresh real Stub on an in-memory '
              'socket-like stream with 2-32 concurrent caller threads against the real Skeleton or a scripted adversary peer (permuted, '
              'fragmented, delayed-relative-to-deadline responses, close at byte k, unknown/duplicate/late tags); executions 3,11,.. aim a '
              'follower deadline into the header/body window, 7,15,.. let a response overtake the return of the send; non-trivial = a leader '
              'collected another caller\'s body, at least one call succeeded, and a follower timed out / an unknown tag was seen / the stream '
              'failed around a body; distinct = distinct signature (sub-workload, configuration mask, log2 buckets of the rare-path counters)',
-        floors=dict(quick=dict(evaluations=20, events=15000, distinct=10,
-                               cov={'C_OOO_LEADER_COLLECT_OTHER': 8000, 'C_OOO_FOLLOWER_TIMEOUT': 150, 'C_OOO_UNKNOWN_TAG': 40,
-                                    'park_timeout_calls': 100, 'follower_timeout_inside_body': 2, 'stream_error_mid_body': 4,
-                                    'close_mid_body': 3, 'duplicate_tag_sent': 4, 'calls_ok': 12000, 'caller_thread_exited_after_call': 2000}),
-                    thorough=dict(evaluations=80, events=200000, distinct=40,
-                                  cov={'C_OOO_LEADER_COLLECT_OTHER': 100000, 'C_OOO_FOLLOWER_TIMEOUT': 2000, 'C_OOO_UNKNOWN_TAG': 400,
-                                       'park_timeout_calls': 1500, 'follower_timeout_inside_body': 8, 'stream_error_mid_body': 40,
-                                       'close_mid_body': 30, 'duplicate_tag_sent': 40, 'calls_ok': 150000, 'caller_thread_exited_after_call': 25000})),
+        floors=dict(quick=dict(evaluations=20, events=8000, distinct=10,
+                               cov={'C_OOO_LEADER_COLLECT_OTHER': 5000, 'C_OOO_FOLLOWER_TIMEOUT': 150, 'C_OOO_UNKNOWN_TAG': 25,
+                                    'park_timeout_calls': 100, 'follower_timeout_inside_body': 2, 'overtaken_call_returned_inside_body': 1,
+                                    'stream_error_mid_body': 4, 'close_mid_body': 3, 'duplicate_tag_sent': 4, 'calls_ok': 7000,
+                                    'caller_thread_exited_after_call': 1500}),
+                    thorough=dict(evaluations=80, events=120000, distinct=40,
+                                  cov={'C_OOO_LEADER_COLLECT_OTHER': 70000, 'C_OOO_FOLLOWER_TIMEOUT': 2000, 'C_OOO_UNKNOWN_TAG': 300,
+                                       'park_timeout_calls': 1500, 'follower_timeout_inside_body': 8, 'overtaken_call_returned_inside_body': 6,
+                                       'stream_error_mid_body': 60, 'close_mid_body': 40, 'duplicate_tag_sent': 50, 'calls_ok': 100000,
+                                       'caller_thread_exited_after_call': 20000})),
         assumptions=['the stub and all its callers live on one vCPU (API requirement), so interleavings are those of photon yields inside the stream methods',
                      'the in-memory stream is socket-like: read/readv block up to the stream timeout (per operation or per wait, seeded), writev may yield',
                      'expected response = deterministic expansion of the request; both peers produce exactly that'],
